@@ -330,6 +330,24 @@ impl std::fmt::Display for ForeignError {
 }
 impl std::error::Error for ForeignError {}
 
+/// A foreign error whose `source()` is an `io::Error`.
+#[derive(Debug)]
+pub struct ChainError(pub std::io::Error);
+impl std::fmt::Display for ChainError {
+    fn fmt(&self, f: &mut std::fmt::Formatter) -> std::fmt::Result {
+        f.write_str("key store lookup failed")
+    }
+}
+impl std::error::Error for ChainError {
+    fn source(&self) -> Option<&(dyn std::error::Error + 'static)> {
+        Some(&self.0)
+    }
+}
+
+/// Wall-clock delay (milliseconds) of the provider's answer; set around the few cases that need a provider that
+/// is slow in real time, 0 otherwise.
+pub static PROVIDER_SLEEP_MS: std::sync::atomic::AtomicU64 = std::sync::atomic::AtomicU64::new(0);
+
 fn to_box(e: &ProvErr) -> BoxError {
     match e {
         ProvErr::Sig(k) => Box::new(make_error(k)),
@@ -339,6 +357,13 @@ fn to_box(e: &ProvErr) -> BoxError {
             "PermissionDenied" => Box::new(std::io::Error::new(std::io::ErrorKind::PermissionDenied, "key store refused")),
             "TimedOut" => Box::new(std::io::Error::new(std::io::ErrorKind::TimedOut, "key store timed out")),
             "Other" => Box::new(std::io::Error::new(std::io::ErrorKind::Other, "key store failed")),
+            "Interrupted" => Box::new(std::io::Error::new(std::io::ErrorKind::Interrupted, "interrupted system call")),
+            "WouldBlock" => Box::new(std::io::Error::new(std::io::ErrorKind::WouldBlock, "would block")),
+            "ConnectionReset" => Box::new(std::io::Error::new(std::io::ErrorKind::ConnectionReset, "connection reset")),
+            "UnexpectedEof" => Box::new(std::io::Error::new(std::io::ErrorKind::UnexpectedEof, "eof")),
+            "ChainInterrupted" => Box::new(ChainError(std::io::Error::new(std::io::ErrorKind::Interrupted, "interrupted system call"))),
+            "SigIOInterrupted" => Box::new(SignatureError::IO(std::io::Error::new(std::io::ErrorKind::Interrupted, "interrupted system call"))),
+            "SigIOWouldBlock" => Box::new(SignatureError::IO(std::io::Error::new(std::io::ErrorKind::WouldBlock, "would block"))),
             _ => "key store unavailable".into(),
         },
     }
@@ -385,6 +410,10 @@ impl Future for AnswerFuture {
         }
         if TRACE_MARK.load(std::sync::atomic::Ordering::SeqCst) {
             unsafe { libc::raise(libc::SIGSTOP) };
+        }
+        let ms = PROVIDER_SLEEP_MS.load(std::sync::atomic::Ordering::SeqCst);
+        if ms > 0 {
+            std::thread::sleep(std::time::Duration::from_millis(ms));
         }
         Poll::Ready(self.answer.take().expect("polled after completion"))
     }
@@ -494,6 +523,8 @@ pub struct ExtensionMarker(pub u32);
 #[derive(Clone, Debug, PartialEq)]
 pub struct Returned {
     pub extension_kept: bool,
+    /// number of values in the returned request's extensions (one was submitted)
+    pub extensions_len: usize,
     pub method: String,
     pub uri: String,
     pub version: String,
@@ -653,6 +684,7 @@ pub fn validate_with(c: &Case, req: Request<Bytes>, prov: &mut Provider) -> ValO
             out.class = "OK".to_string();
             out.returned = Some(Returned {
                 extension_kept: parts.extensions.get::<ExtensionMarker>() == Some(&ExtensionMarker(0x51671)),
+                extensions_len: parts.extensions.len(),
                 method: parts.method.to_string(),
                 uri: parts.uri.to_string(),
                 version: format!("{:?}", parts.version),
@@ -958,4 +990,79 @@ pub fn validate_abandoned(c: &Case, polls: usize) -> Option<bool> {
         false
     }));
     Some(r.unwrap_or(true))
+}
+
+// ---------------------------------------------------------------------------------------------
+// Histories on one authenticator object (unstable API) and re-submission of returned request parts
+
+/// One step of a history on a single `SigV4Authenticator` (or on a clone of it, `on_clone`).
+#[derive(Clone, Debug)]
+pub struct AuthStep {
+    pub validate: bool, // false: prevalidate, true: validate_signature (provider returns a fixed key; the signature is "x")
+    pub on_clone: bool,
+    pub region: String,
+    pub service: String,
+    pub now: (i64, u32),
+    pub mismatch_secs: i64,
+}
+
+/// Run the steps in order on one authenticator built directly from (credential, timestamp). Each entry of the result is
+/// `OK` / `ERR <kind>` / `PANIC…` followed by ` calls=<n>` for validate steps.
+pub fn auth_history(cred: &str, t: (i64, u32), steps: &[AuthStep]) -> Option<Vec<String>> {
+    let ts = mk_time(t.0, t.1)?;
+    let mut b = SigV4Authenticator::builder();
+    b.canonical_request_sha256([7u8; 32]);
+    b.credential(cred.to_string());
+    b.signature("x".to_string());
+    b.request_timestamp(ts);
+    let a = b.build().ok()?;
+    let mut out = Vec::new();
+    for st in steps {
+        flip_log_level();
+        let now = mk_time(st.now.0, st.now.1)?;
+        let cl;
+        let obj: &SigV4Authenticator = if st.on_clone {
+            cl = a.clone();
+            &cl
+        } else {
+            &a
+        };
+        let dur = chrono::Duration::seconds(st.mismatch_secs);
+        if !st.validate {
+            out.push(guard(|| {
+                obj.prevalidate(&st.region, &st.service, now, dur)?;
+                Ok(String::new())
+            }).trim().to_string());
+        } else {
+            let mut prov = provider_for(vec![Entry { ready_err: None, pending_ready: 0, pending_answer: 0, answer: Answer::Key { key: vec![9u8; 32], identity: "u".into() } }]);
+            let r = catch_unwind(AssertUnwindSafe(|| block_on(obj.validate_signature(&st.region, &st.service, now, dur, &mut prov)).0));
+            let calls = prov.0.lock().unwrap().calls.len();
+            let class = match r {
+                Err(p) => format!("PANIC {}", panic_msg(p).replace(' ', "_")),
+                Ok(Ok(_)) => "OK".to_string(),
+                Ok(Err(e)) => format!("ERR {}", kind_of(&e)),
+            };
+            out.push(format!("{} calls={}", class, calls));
+        }
+    }
+    Some(out)
+}
+
+/// Validate `c`; if it is accepted, put the returned parts together with `new_body` and hand the result to `f`
+/// (a second validation, the AUTH diagnostic, …). The returned parts carry whatever the first validation left in them.
+pub fn with_resubmitted<T>(c: &Case, new_body: &[u8], f: impl FnOnce(Request<Bytes>) -> T) -> Option<(Vec<(String, Vec<u8>)>, String, T)> {
+    let req = build_request(c)?;
+    let now = mk_time(c.now.0, c.now.1)?;
+    let opts = SignatureOptions { s3: c.s3, url_encode_form: c.fold };
+    let a: Vec<Cow<str>> = c.always.iter().map(|s| Cow::Borrowed(s.as_str())).collect();
+    let b: Vec<Cow<str>> = c.ifreq.iter().map(|s| Cow::Borrowed(s.as_str())).collect();
+    let p: Vec<Cow<str>> = c.prefixes.iter().map(|s| Cow::Borrowed(s.as_str())).collect();
+    let reqs = SliceSignedHeaderRequirements::new(&a, &b, &p);
+    let mut prov = provider_for(vec![entry_of(c)]);
+    let r = catch_unwind(AssertUnwindSafe(|| block_on(sigv4_validate_request(req, &c.region, &c.service, &mut prov, now, &reqs, opts)).0)).ok()?;
+    let (parts, _body, _resp) = r.ok()?;
+    let headers = headers_list(&parts.headers);
+    let uri = parts.uri.to_string();
+    let again = Request::from_parts(parts, Bytes::from(new_body.to_vec()));
+    Some((headers, uri, f(again)))
 }
